@@ -106,7 +106,14 @@ Definition C15_case (c : cfg) (it : intr) (sc : scanner) (inp : inputs) (full im
   (outcome_eqb true impl (run_scan c it inp sc) && outcome_eqb true full (run_scan c Never inp sc),
    (* the interruption happened iff its point exists; then same error kind; prefix; no spurious match *)
    match o_err impl with
-   | None => outcome_eqb false impl full
+   | None =>
+       (* no interruption: only legitimate when the complete scan has no such point *)
+       outcome_eqb false impl full
+       && match it with
+          | AbortAt k => nlen (o_events full) <? k
+          | TimeoutAt j => o_checks full <? j
+          | Never => true
+          end
    | Some e => opt_eqb err_eqb (Some e) (expected_err it)
    end
    && is_prefix_by event_eqb (o_events impl) (o_events full)
